@@ -305,10 +305,13 @@ bool comp_reset_comp_data(zckCtx *zck) {
     if(zck->comp.data) {
         free(zck->comp.data);
         zck->comp.data = NULL;
-        zck->comp.data_size = 0;
-        zck->comp.data_loc = 0;
-        zck->comp.data_idx = NULL;
     }
+    /* The position inside the current chunk and the end-of-data marker are
+     * valid even when no compressed data is buffered, so always reset them */
+    zck->comp.data_size = 0;
+    zck->comp.data_loc = 0;
+    zck->comp.data_idx = NULL;
+    zck->comp.data_eof = 0;
     return true;
 }
 
@@ -744,6 +747,10 @@ ssize_t ZCK_PUBLIC_API zck_get_chunk_data(zckChunk *idx, char *dst,
     if(zck_get_chunk_start(idx) < 0)
         return -1;
 
+    /* Forget the reading state left behind by previous requests */
+    if(!comp_reset_comp_data(zck))
+        return -1;
+
     /* Read dictionary if needed */
     zckChunk *dict = zck_get_first_chunk(zck);
     if(dict == NULL)
@@ -771,5 +778,7 @@ ssize_t ZCK_PUBLIC_API zck_get_chunk_data(zckChunk *idx, char *dst,
     if(!seek_data(zck, zck_get_chunk_start(idx), SEEK_SET))
         return -1;
     zck->comp.data_idx = idx;
+    if(!hash_init(zck, &(zck->check_chunk_hash), &(zck->chunk_hash_type)))
+        return -1;
     return comp_read(zck, dst, dst_size, 1);
 }
